@@ -1,7 +1,7 @@
 /-
   Control skeletons of RK23 (rk23.rs) and RK4 (rk4.rs) over the translated regions.  Core Lean only.
 -/
-import IvpModel.Model.Ctl
+import IvpModel.Model.Hairer
 import IvpModel.Gen.Common
 import IvpModel.Gen.Rk23
 import IvpModel.Gen.Rk4
@@ -32,56 +32,67 @@ structure R23State (σ α : Type) (n : Nat) where
   h : α
   y : Vec α n
   k1 : Vec α n
-  cnt : Counters := {}
-  ncalls : Nat := 0
+  m : Meter α n := {}
   obs : σ
-  log : Array (Ev α n) := #[]
 
 def R23State.result {σ : Type} (s : R23State σ α n) (st : Status) : Result σ α n :=
-  { status := st, h := s.h, x := s.x, y := s.y, cnt := s.cnt, ncalls := s.ncalls, obs := s.obs, log := s.log }
+  { status := st, h := s.h, x := s.x, y := s.y, m := s.m, obs := s.obs }
+
+def rk23Guard {σ : Type} (P : R23Params α n) (s : R23State σ α n) : Option Status :=
+  if s.m.cnt.total ≥ P.nmax then some .needLargerNMax
+  else if Gen.Rk23.underflowGuard s.h s.x then some .stepSizeTooSmall
+  else none
+
+/-- "Check for last step adjustment" -/
+def rk23Adjust {σ : Type} (P : R23Params α n) (s : R23State σ α n) : α :=
+  if Gen.Rk23.lastGuard s.x s.h P.xend P.posneg then P.xend - s.x else s.h
+
+structure R23Trial (α : Type) (n : Nat) where
+  o : Gen.Rk23.StagesOut α n
+  m : Meter α n
+  err : α
+
+def rk23Trial {σ : Type} (P : R23Params α n) (f : Rhs α n) (s : R23State σ α n) (h : α) : R23Trial α n :=
+  let o := Gen.Rk23.stages (f := fun j => f (s.m.ncalls + j)) (y := s.y) (h := h) (k1 := s.k1) (x := s.x)
+  let ye := (Gen.Rk23.errvec (h := h) (k1 := s.k1) (k2 := o.k2) (k3 := o.k3) (k4 := o.k4)).ye
+  { o := o, m := s.m.bump o.calls 3, err := Gen.Rk23.errnorm (atol := P.atol) (rtol := P.rtol) (yt := o.yt) (y := s.y) (ye := ye) }
+
+/-- "Adjust step size" after acceptance -/
+def rk23NextStep (P : R23Params α n) (h err : α) : α :=
+  let h' := h * Gen.Rk23.hAcceptFactor P.safety err (Gen.Rk23.errorExponent : α) P.scaleMax P.scaleMin
+  if Gen.Rk23.hmaxExceeded h' P.hmax then P.hmax * P.posneg else h'
+
+def rk23Accepted {σ : Type} (P : R23Params α n) (f : Rhs α n) (ob : Obs σ α n) (s : R23State σ α n) (h : α)
+    (T : R23Trial α n) : Sum (R23State σ α n) (Result σ α n) :=
+  let m := T.m.incTotal.incAccepted
+  let xold := s.x
+  let x := s.x + h
+  let ip : Option (α → Vec α n) :=
+    if P.dense then
+      let d := Gen.Rk23.dense (ye := s.y) (k1 := s.k1) (k2 := T.o.k2) (k3 := T.o.k3) (k4 := T.o.k4)
+      some fun xi => Gen.Rk23.interpolate (xi := xi) (xold := xold) (h := h) (cont0 := d.cont0) (cont1 := d.cont1)
+        (cont2 := d.cont2) (cont3 := d.cont3)
+    else none
+  let m := m.cb xold x T.o.yt (sampleInterp ip xold x P.quarter P.half P.threeq)
+  match afterCb f ob s.obs m xold x T.o.yt ip T.o.k4 with
+  | .stop obs y => .inr { status := .userInterrupt, h := h, x := x, y := y, m := m, obs := obs }
+  | .go obs y k1 m =>
+    let h' := rk23NextStep P h T.err
+    -- Normal exit
+    if Num.eqb x P.xend = true then .inr { status := .success, h := h', x := x, y := y, m := m, obs := obs }
+    else .inl { x := x, h := h', y := y, k1 := k1, m := m, obs := obs }
 
 def rk23Iter {σ : Type} (P : R23Params α n) (f : Rhs α n) (ob : Obs σ α n) (s : R23State σ α n) :
     Sum (R23State σ α n) (Result σ α n) :=
-  if s.cnt.total ≥ P.nmax then .inr (s.result .needLargerNMax)
-  else if Gen.Rk23.underflowGuard s.h s.x then .inr (s.result .stepSizeTooSmall)
-  else
-    let h := if Gen.Rk23.lastGuard s.x s.h P.xend P.posneg then P.xend - s.x else s.h
-    let o := Gen.Rk23.stages (f := fun j => f (s.ncalls + j)) (y := s.y) (h := h) (k1 := s.k1) (x := s.x)
-    let log := logCalls s.log s.ncalls o.calls
-    let ncalls := s.ncalls + o.calls.size
-    let cnt := { s.cnt with ode := s.cnt.ode + 3 }
-    let ye := (Gen.Rk23.errvec (h := h) (k1 := s.k1) (k2 := o.k2) (k3 := o.k3) (k4 := o.k4)).ye
-    let err := Gen.Rk23.errnorm (atol := P.atol) (rtol := P.rtol) (yt := o.yt) (y := s.y) (ye := ye)
-    if err ≤ P.one then
-      let cnt := { cnt with total := cnt.total + 1, accepted := cnt.accepted + 1 }
-      let xold := s.x
-      let x := s.x + h
-      let ip : Option (α → Vec α n) :=
-        if P.dense then
-          let d := Gen.Rk23.dense (ye := s.y) (k1 := s.k1) (k2 := o.k2) (k3 := o.k3) (k4 := o.k4)
-          some fun xi => Gen.Rk23.interpolate (xi := xi) (xold := xold) (h := h) (cont0 := d.cont0) (cont1 := d.cont1)
-            (cont2 := d.cont2) (cont3 := d.cont3)
-        else none
-      let log := log.push (Ev.cb xold x o.yt (sampleInterp ip xold x P.quarter P.half P.threeq))
-      let (obs, flag, ycb) := ob s.obs xold x o.yt ip
-      match flag with
-      | .interrupt =>
-        .inr { status := .userInterrupt, h := h, x := x, y := ycb, cnt := cnt, ncalls := ncalls, obs := obs, log := log }
-      | _ =>
-        let (k1', log, ncalls, cnt) :=
-          if flag = .modified then (f ncalls x ycb, log.push (Ev.ode ncalls x ycb), ncalls + 1, { cnt with ode := cnt.ode + 1 })
-          else (o.k4, log, ncalls, cnt)
-        -- Adjust step size
-        let h' := h * Gen.Rk23.hAcceptFactor P.safety err (Gen.Rk23.errorExponent : α) P.scaleMax P.scaleMin
-        let h' := if Gen.Rk23.hmaxExceeded h' P.hmax then P.hmax * P.posneg else h'
-        -- Normal exit
-        if Num.eqb x P.xend = true then
-          .inr { status := .success, h := h', x := x, y := ycb, cnt := cnt, ncalls := ncalls, obs := obs, log := log }
-        else .inl { x := x, h := h', y := ycb, k1 := k1', cnt := cnt, ncalls := ncalls, obs := obs, log := log }
+  match rk23Guard P s with
+  | some st => .inr (s.result st)
+  | none =>
+    let h := rk23Adjust P s
+    let T := rk23Trial P f s h
+    if T.err ≤ P.one then rk23Accepted P f ob s h T
     else
-      let cnt := { cnt with rejected := cnt.rejected + 1 }
-      let h' := h * Gen.Rk23.hRejectFactor P.safety err (Gen.Rk23.errorExponent : α) P.scaleMin
-      .inl { s with h := h', cnt := cnt, ncalls := ncalls, log := log }
+      .inl { s with h := h * Gen.Rk23.hRejectFactor P.safety T.err (Gen.Rk23.errorExponent : α) P.scaleMin,
+                    m := T.m.incRejected }
 
 def rk23Loop {σ : Type} (P : R23Params α n) (f : Rhs α n) (ob : Obs σ α n) : Nat → R23State σ α n → Option (Result σ α n)
   | 0, _ => none
@@ -89,28 +100,21 @@ def rk23Loop {σ : Type} (P : R23Params α n) (f : Rhs α n) (ob : Obs σ α n) 
     | .inr r => some r
     | .inl s' => rk23Loop P f ob fuel s'
 
+def rk23Start {σ : Type} (P : R23Params α n) (f : Rhs α n) (ob : Obs σ α n) (obs0 : σ) (x0 : α) (y0 : Vec α n)
+    (firstStep : Option α) (hmaxArg : α) : Sum (R23State σ α n) (Result σ α n) :=
+  let i := startMeter f x0 y0 P.posneg firstStep (fun f' k1 =>
+    Gen.Common.hinit (f := f') (atol := P.atol) (rtol := P.rtol) (y := y0) (f0 := k1) (hmax := hmaxArg) (posneg := P.posneg)
+      (x := x0) (iord := 3))
+  let m := i.2.2.cb x0 x0 y0 #[]
+  match afterCb f ob obs0 m x0 x0 y0 none i.2.1 with
+  | .stop obs y => .inr { status := .userInterrupt, h := i.1, x := x0, y := y, m := m, obs := obs }
+  | .go obs y k1 m => .inl { x := x0, h := i.1, y := y, k1 := k1, m := m, obs := obs }
+
 def rk23Solve {σ : Type} (P : R23Params α n) (f : Rhs α n) (ob : Obs σ α n) (obs0 : σ) (x0 : α) (y0 : Vec α n)
     (firstStep : Option α) (hmaxArg : α) (fuel : Nat) : Option (Result σ α n) :=
-  let k1 := f 0 x0 y0
-  let log : Array (Ev α n) := #[Ev.ode 0 x0 y0]
-  let cnt : Counters := { ode := 1 }
-  let (h, log, ncalls, cnt) :=
-    match firstStep with
-    | some h0 => (Num.abs h0 * P.posneg, log, 1, cnt)
-    | none =>
-      let r := Gen.Common.hinit (f := fun j => f (1 + j)) (atol := P.atol) (rtol := P.rtol) (y := y0) (f0 := k1)
-        (hmax := hmaxArg) (posneg := P.posneg) (x := x0) (iord := 3)
-      (r.1, logCalls log 1 r.2, 1 + r.2.size, { cnt with ode := cnt.ode + 1 })
-  let log := log.push (Ev.cb x0 x0 y0 #[])
-  let (obs, flag, ycb) := ob obs0 x0 x0 y0 none
-  match flag with
-  | .interrupt =>
-    some { status := .userInterrupt, h := h, x := x0, y := ycb, cnt := cnt, ncalls := ncalls, obs := obs, log := log }
-  | _ =>
-    let (k1, log, ncalls, cnt) :=
-      if flag = .modified then (f ncalls x0 ycb, log.push (Ev.ode ncalls x0 ycb), ncalls + 1, { cnt with ode := cnt.ode + 1 })
-      else (k1, log, ncalls, cnt)
-    rk23Loop P f ob fuel { x := x0, h := h, y := ycb, k1 := k1, cnt := cnt, ncalls := ncalls, obs := obs, log := log }
+  match rk23Start P f ob obs0 x0 y0 firstStep hmaxArg with
+  | .inr r => some r
+  | .inl s => rk23Loop P f ob fuel s
 
 /-! ### RK4 (fixed step) -/
 
@@ -127,45 +131,39 @@ structure R4State (σ α : Type) (n : Nat) where
   h : α
   y : Vec α n
   k1 : Vec α n
-  cnt : Counters := {}
-  ncalls : Nat := 0
+  m : Meter α n := {}
   obs : σ
-  log : Array (Ev α n) := #[]
+
+/-- "Adjust last step so we land exactly on xend" -/
+def rk4Adjust {σ : Type} (P : R4Params α) (s : R4State σ α n) : α × Bool :=
+  if Gen.Rk4.lastGuard s.x s.h P.xend then (P.xend - s.x, true) else (s.h, false)
 
 def rk4Iter {σ : Type} (P : R4Params α) (f : Rhs α n) (ob : Obs σ α n) (s : R4State σ α n) :
     Sum (R4State σ α n) (Result σ α n) :=
-  if s.cnt.total ≥ P.nmax then
-    .inr { status := .needLargerNMax, h := s.h, x := s.x, y := s.y, cnt := s.cnt, ncalls := s.ncalls, obs := s.obs, log := s.log }
+  if s.m.cnt.total ≥ P.nmax then
+    .inr { status := .needLargerNMax, h := s.h, x := s.x, y := s.y, m := s.m, obs := s.obs }
   else
-    -- Adjust last step so we land exactly on xend
-    let (h, last) := if Gen.Rk4.lastGuard s.x s.h P.xend then (P.xend - s.x, true) else (s.h, false)
-    let o := Gen.Rk4.stages (f := fun j => f (s.ncalls + j)) (y := s.y) (h := h) (k1 := s.k1) (x := s.x)
-    let log := logCalls s.log s.ncalls o.calls
-    let ncalls := s.ncalls + o.calls.size
+    let a := rk4Adjust P s
+    let h := a.1
+    let o := Gen.Rk4.stages (f := fun j => f (s.m.ncalls + j)) (y := s.y) (h := h) (k1 := s.k1) (x := s.x)
+    let m := s.m.bump o.calls 3
     let xold := s.x
-    let u := Gen.Rk4.update (f := fun j => f (ncalls + j)) (h := h) (x := s.x) (k1 := s.k1) (k2 := o.k2) (k3 := o.k3)
+    let u := Gen.Rk4.update (f := fun j => f (m.ncalls + j)) (h := h) (x := s.x) (k1 := s.k1) (k2 := o.k2) (k3 := o.k3)
       (k4 := o.k4) (y := s.y)
-    let log := logCalls log ncalls u.calls
-    let ncalls := ncalls + u.calls.size
-    let cnt := { s.cnt with ode := s.cnt.ode + 4, total := s.cnt.total + 1, accepted := s.cnt.accepted + 1 }
+    -- `evals.ode += 4` covers the three stages and the evaluation at the new point
+    let m := (m.bump u.calls 1).incTotal.incAccepted
     let ip : Option (α → Vec α n) :=
       if P.dense then
         let d := Gen.Rk4.dense (yt := s.y) (k2 := u.k2) (k1 := u.k1) (y := u.y)
         some fun xi => Gen.Rk4.interpolate (xi := xi) (xold := xold) (h := h) (cont0 := d.cont0) (cont1 := d.cont1)
           (cont2 := d.cont2) (cont3 := d.cont3)
       else none
-    let log := log.push (Ev.cb xold u.x u.y (sampleInterp ip xold u.x P.quarter P.half P.threeq))
-    let (obs, flag, ycb) := ob s.obs xold u.x u.y ip
-    match flag with
-    | .interrupt =>
-      .inr { status := .userInterrupt, h := h, x := u.x, y := ycb, cnt := cnt, ncalls := ncalls, obs := obs, log := log }
-    | _ =>
-      let (k1', log, ncalls, cnt) :=
-        if flag = .modified then (f ncalls u.x ycb, log.push (Ev.ode ncalls u.x ycb), ncalls + 1, { cnt with ode := cnt.ode + 1 })
-        else (u.k1, log, ncalls, cnt)
-      if last then
-        .inr { status := .success, h := h, x := u.x, y := ycb, cnt := cnt, ncalls := ncalls, obs := obs, log := log }
-      else .inl { x := u.x, h := h, y := ycb, k1 := k1', cnt := cnt, ncalls := ncalls, obs := obs, log := log }
+    let m := m.cb xold u.x u.y (sampleInterp ip xold u.x P.quarter P.half P.threeq)
+    match afterCb f ob s.obs m xold u.x u.y ip u.k1 with
+    | .stop obs y => .inr { status := .userInterrupt, h := h, x := u.x, y := y, m := m, obs := obs }
+    | .go obs y k1 m =>
+      if a.2 then .inr { status := .success, h := h, x := u.x, y := y, m := m, obs := obs }
+      else .inl { x := u.x, h := h, y := y, k1 := k1, m := m, obs := obs }
 
 def rk4Loop {σ : Type} (P : R4Params α) (f : Rhs α n) (ob : Obs σ α n) : Nat → R4State σ α n → Option (Result σ α n)
   | 0, _ => none
@@ -173,19 +171,18 @@ def rk4Loop {σ : Type} (P : R4Params α) (f : Rhs α n) (ob : Obs σ α n) : Na
     | .inr r => some r
     | .inl s' => rk4Loop P f ob fuel s'
 
+def rk4Start {σ : Type} (f : Rhs α n) (ob : Obs σ α n) (obs0 : σ) (x0 : α) (y0 : Vec α n) (h : α) :
+    Sum (R4State σ α n) (Result σ α n) :=
+  let k1 := f 0 x0 y0
+  let m : Meter α n := (({} : Meter α n).bump #[(x0, y0)] 1).cb x0 x0 y0 #[]
+  match afterCb f ob obs0 m x0 x0 y0 none k1 with
+  | .stop obs y => .inr { status := .userInterrupt, h := h, x := x0, y := y, m := m, obs := obs }
+  | .go obs y k1 m => .inl { x := x0, h := h, y := y, k1 := k1, m := m, obs := obs }
+
 def rk4Solve {σ : Type} (P : R4Params α) (f : Rhs α n) (ob : Obs σ α n) (obs0 : σ) (x0 : α) (y0 : Vec α n) (h : α)
     (fuel : Nat) : Option (Result σ α n) :=
-  let k1 := f 0 x0 y0
-  let log : Array (Ev α n) := #[Ev.ode 0 x0 y0, Ev.cb x0 x0 y0 #[]]
-  let cnt : Counters := { ode := 1 }
-  let (obs, flag, ycb) := ob obs0 x0 x0 y0 none
-  match flag with
-  | .interrupt =>
-    some { status := .userInterrupt, h := h, x := x0, y := ycb, cnt := cnt, ncalls := 1, obs := obs, log := log }
-  | _ =>
-    let (k1, log, ncalls, cnt) :=
-      if flag = .modified then (f 1 x0 ycb, log.push (Ev.ode 1 x0 ycb), 2, { cnt with ode := cnt.ode + 1 })
-      else (k1, log, 1, cnt)
-    rk4Loop P f ob fuel { x := x0, h := h, y := ycb, k1 := k1, cnt := cnt, ncalls := ncalls, obs := obs, log := log }
+  match rk4Start f ob obs0 x0 y0 h with
+  | .inr r => some r
+  | .inl s => rk4Loop P f ob fuel s
 
 end Ctl
